@@ -650,6 +650,9 @@ const E2E_FILES: &[&str] = &[
 /// the repository's tests never use, and compares the public outputs with direct evaluation.
 /// Concrete structure and values: evaluated facts, no quantifier over inputs.
 fn e2e_configs(ctx: &mut Ctx) {
+    if ctx.is_witness_run() {
+        return;
+    }
     use plonky2::plonk::config::{GenericConfig, KeccakGoldilocksConfig, PoseidonGoldilocksConfig};
     use plonky2_field::goldilocks_field::GoldilocksField as G;
     use std::sync::Arc;
@@ -726,6 +729,14 @@ fn e2e_configs(ctx: &mut Ctx) {
     add(&mut cases, mk("minsize-max3-cap3", false, 2, fri(3, 3, FriReductionStrategy::MinSize(Some(3)), 28, 0)), false, false);
     add(&mut cases, mk("keccak-standard", false, 2, fri(3, 4, FriReductionStrategy::ConstantArityBits(4, 5), 28, 16)), false, true);
     add(&mut cases, mk("keccak-zk-rate4", true, 2, fri(4, 2, FriReductionStrategy::ConstantArityBits(2, 3), 21, 0)), true, true);
+    // row widths that are not a multiple of the quotient degree factor (a short last chunk of
+    // partial products)
+    let mut narrow = mk("routed37", false, 2, fri(3, 4, FriReductionStrategy::ConstantArityBits(4, 5), 28, 16));
+    narrow.1.num_routed_wires = 37;
+    add(&mut cases, narrow, false, false);
+    let mut wide = mk("routed100-keccak", false, 2, fri(3, 4, FriReductionStrategy::ConstantArityBits(4, 5), 28, 16));
+    wide.1.num_routed_wires = 100;
+    add(&mut cases, wide, false, true);
     for (name, cfg, lookups, keccak) in cases {
         let idp = format!("C01.S.plonk.e2e.{name}");
         ctx.guarded(&idp.clone(), E2E_FILES, |ctx| {
